@@ -403,6 +403,86 @@ func (c *c18Run) twoKinds(ka, kb c18PointKind) {
 	r.Sample(func() any { return cas })
 }
 
+// badResource: a resource with an attribute that cannot become a label (the reserved "__"
+// prefix; an invalid UTF-8 key): target_info cannot be built. Scrapes -- the first one above all
+// -- must not panic, the instrument's series and otel_scope_info are exposed as always, and
+// target_info is simply absent.
+func (c *c18Run) badResource(kind c18PointKind, badKey string, opt c18Opt) {
+	r := c.r
+	cas := map[string]any{"kind": kind.id, "resource_attribute_key": show18(badKey), "option": opt.id}
+	saved := model.NameValidationScheme              //nolint:staticcheck
+	model.NameValidationScheme = model.UTF8Validation //nolint:staticcheck
+	defer func() { model.NameValidationScheme = saved }() //nolint:staticcheck
+	c.handled = c.handled[:0]
+	enum.Guard("process-death|scrape|bad-resource|"+kind.id, cas, r.Here())
+	defer enum.Unguard()
+	agg := kind.letters[0].add(kind.empty(), attribute.NewSet(attribute.String("k", "v")))
+	prod := &c18Producer{sm: []metricdata.ScopeMetrics{{Scope: instrumentation.Scope{Name: "sa"}, Metrics: []metricdata.Metrics{{Name: "m", Description: "d", Data: agg}}}}}
+	reg := &capturingRegisterer{Registry: prometheus.NewRegistry()}
+	exp, err := New(append([]Option{WithRegisterer(reg), WithProducer(prod)}, opt.options()...)...)
+	if err != nil || reg.got == nil {
+		r.FailHere("new|exporter construction failed", cas, "New: %v", err)
+		return
+	}
+	mp := metric.NewMeterProvider(metric.WithReader(exp), metric.WithResource(resource.NewSchemaless(attribute.String(badKey, "1"), attribute.String("service.name", "svc"))))
+	defer func() { _ = mp.Shutdown(context.Background()) }()
+	pts, _, _ := refPoints(prod.sm[0].Metrics[0])
+	wantFam := refNames("m", "", refNaming{counter: kind.counter})[0]
+	for i := 0; i < 3; i++ {
+		what := []string{"first scrape", "second scrape", "third scrape"}[i]
+		r.Eval()
+		ms, panicked := collectDirect(reg.got)
+		if panicked != nil {
+			r.FailHere("bad-resource|panic|Collect|"+what, cas, "%s: collector.Collect panicked: %v", what, panicked)
+			return
+		}
+		for _, m := range ms {
+			if m == nil {
+				r.FailHere("bad-resource|nil metric sent to the registry|"+what, cas, "%s: Collect sent a nil prometheus.Metric (Registry.Gather dereferences it in a goroutine nobody can recover)", what)
+				return
+			}
+		}
+		rr := prometheus.NewRegistry()
+		if err := rr.Register(replayCollector(ms)); err != nil {
+			r.FailHere("harness|replay registry", cas, "%v", err)
+			return
+		}
+		fams, err := rr.Gather()
+		if err != nil {
+			r.FailHere("bad-resource|gather-error", cas, "%s: %v (errors handled by the exporter: %q)", what, err, c.handled)
+			return
+		}
+		found, target, scope := false, false, false
+		for _, f := range fams {
+			switch f.GetName() {
+			case targetInfoMetricName:
+				target = true
+			case scopeInfoMetricName:
+				scope = true
+			case wantFam:
+				if len(f.Metric) == 1 {
+					if _, v := actualValue(f, f.Metric[0]); v == pts[0].val {
+						found = true
+					}
+				}
+			}
+		}
+		if !found {
+			r.FailHere("bad-resource|series missing or wrong|"+kind.id, cas, "%s: %s is not exposed with the aggregated value (errors handled by the exporter: %q)", what, wantFam, c.handled)
+		}
+		if target {
+			r.FailHere("bad-resource|target_info exposed", cas, "%s: target_info is exposed although the resource cannot be turned into labels", what)
+		}
+		if scope == opt.noScope {
+			r.FailHere("bad-resource|otel_scope_info", cas, "%s: otel_scope_info present=%v, WithoutScopeInfo=%v", what, scope, opt.noScope)
+		}
+	}
+	r.Outcome(fmt.Sprint(kind.id, badKey, opt.id))
+	r.Sample(func() any { return cas })
+}
+
+func show18(s string) string { return fmt.Sprintf("%q", s) }
+
 func keysOf(m map[string]refValue) []string {
 	var ks []string
 	for k := range m {
@@ -417,7 +497,7 @@ func TestVerifC18Points(t *testing.T) {
 	for _, k := range c18PointKinds {
 		jobs = append(jobs, "points/"+k.id)
 	}
-	jobs = append(jobs, "two-scopes", "two-kinds")
+	jobs = append(jobs, "two-scopes", "two-kinds", "bad-resource")
 	enum.Jobs(jobs, func(job string) {
 		r := enum.Start("C18", "points")
 		defer r.Finish()
@@ -431,6 +511,20 @@ func TestVerifC18Points(t *testing.T) {
 		maxLen := enum.Pick(r, 3, 4)
 		r.Bound("points_max_data_points_per_metric", maxLen)
 		r.Section(job)
+		if job == "bad-resource" {
+			keys := []string{"__meta.shard", "bad\xffkey"}
+			r.Bound("bad_resource_keys", []string{show18(keys[0]), show18(keys[1])})
+			for _, kind := range c18PointKinds {
+				for _, k := range keys {
+					for _, opt := range []c18Opt{{id: "default"}, {id: "WithoutScopeInfo", noScope: true}} {
+						if r.Want() {
+							run.badResource(kind, k, opt)
+						}
+					}
+				}
+			}
+			return
+		}
 		if job == "two-kinds" {
 			r.Bound("two_kinds_ordered_pairs", len(c18PointKinds)*len(c18PointKinds))
 			r.Bound("two_kinds_scrapes", 3)
